@@ -153,6 +153,7 @@ class C14(object):
             return None
 
         hdf_trips = [0]
+        big_shared = [0]
         if scen in ("roundtrip", "sort"):
             dt = rnd.choice([np.uint16, np.float32, np.uint16])
             if dt == np.float32:
@@ -185,6 +186,8 @@ class C14(object):
                         selected = m
                     else:
                         cut = rnd.choice([0, 1, 500, 40000, int(data[rnd.randrange(ns), rnd.randrange(nf)])])
+                        if rnd.random() < 0.3:
+                            cut = cut + rnd.choice([0.5, 0.5, 0.75, 0.25, 0.9])      # thresholds such as mean + 3 sigma are not whole numbers
                         if data.dtype == np.float32 and rnd.random() < 0.25:
                             # dead pixels of processed data: not-a-number is not above any cut
                             for _ in range(rnd.randint(1, 3)):
@@ -645,6 +648,26 @@ class C14(object):
                     coo = sf.overlaps(f1, "lab", f2, "lab") if len(want) else None
                     kept.append((want, nl, rcl, nm, None if rcm is None else np.array(rcm), coo))
                     nontrivial = nontrivial or len(want) > 0
+                if rnd.random() < 0.03 and viol is None:
+                    # one big peak present on both frames: more shared pixels than a 16 bit counter holds
+                    sb = rnd.choice([257, 260, 300])
+                    rb_, cb_ = np.divmod(np.arange(256 * sb), sb)
+                    rb_, cb_ = rb_.astype(np.uint16), cb_.astype(np.uint16)
+                    lb1 = np.ones(len(rb_), np.int32)
+                    lb2 = np.where(cb_ < 3, 1, 2).astype(np.int32)
+                    fb1 = sf.sparse_frame(rb_, cb_, (256, sb), pixels={"lab": lb1})
+                    fb1.meta["lab"] = {"nlabel": 1}
+                    fb2 = sf.sparse_frame(rb_, cb_, (256, sb), pixels={"lab": lb2})
+                    fb2.meta["lab"] = {"nlabel": 2}
+                    wantb = pair_counter(rb_, cb_, lb1, rb_, cb_, lb2)
+                    cb = sf.overlaps(fb1, "lab", fb2, "lab").tocoo()
+                    gotb = collections.Counter({(int(i) + 1, int(j) + 1): int(v) for i, j, v in zip(cb.row, cb.col, cb.data) if v})
+                    nlb, rclb = sf.overlaps_linear(nnzmax=len(rb_))(rb_, cb_, lb1, 1, rb_, cb_, lb2, 2)
+                    gotlb = collections.Counter({(int(x[0]), int(x[1])): int(x[2]) for x in rclb[:nlb]})
+                    if gotb != wantb or gotlb != wantb:
+                        viol = V("overlaps-wrong", "one peak of %d pixels present on both frames: overlaps() gives %s, overlaps_linear %s, the "
+                                                   "shared-pixel counts are %s" % (len(rb_), dict(gotb), dict(gotlb), dict(wantb)))
+                    big_shared[0] += 1
                 # consume the answers afterwards, as properties.pairrow does
                 for k, (want, nl, rcl, nm, rcm, coo) in enumerate(kept):
                     gotl = collections.Counter() if not nl else collections.Counter({(int(x[0]), int(x[1])): int(x[2]) for x in rcl})
@@ -681,6 +704,7 @@ class C14(object):
             meas.update(meas_py)
         meas["concurrent_tosparse_pairs"] = conc_pairs
         meas["frames_through_an_hdf5_group"] = hdf_trips[0]
+        meas["peaks_sharing_more_than_65535_pixels"] = big_shared[0]
         meas["data/mask layout"] = layouts
         if scen == "overlaps":
             meas["overlap_frames_offset(row/col)"] = offs
